@@ -68,6 +68,8 @@ def generate(seed, prop, h, tier, jobs=(2, 3), vertex_p=0.4, fault_p=0.25, fault
             faults[str(ji)] = [{"seam": "write", "at": fr.randrange(3), "kind": fr.pick(["enospc", "eio", "eacces", "short"]), "k": fr.randrange(600)}]
         elif seam == "read":
             faults[str(ji)] = [{"seam": "read", "at": fr.randrange(15), "kind": fr.pick(["enoent", "eio", "parse", "truncated"])}]
+            if fr.chance(0.3):
+                faults[str(ji)] = [{"seam": "read", "at": fr.pick([0, 0, 5, 10]), "kind": "truncated"}]  # head-count table torn
         elif seam == "clock":
             faults[str(ji)] = [{"seam": "clock", "at": fr.randrange(18), "kind": "jump",
                                 "seconds": fr.pick([-86400 * 400, -3600, 59, 3600, 86400 * 31])}]
